@@ -4,6 +4,8 @@ package main
 
 import (
 	"fmt"
+	"os"
+	"sync"
 	"go/constant"
 	"go/token"
 	"go/types"
@@ -150,6 +152,9 @@ type Engine struct {
 	byteVars map[string]int // registered byte variables: name -> max
 	rtPkgFns map[string]*ssa.Function
 	params   map[string]int
+	rawArrays bool
+	newSolver func() (*Portfolio, error)
+	SolverStats []*Portfolio
 }
 
 func (e *Engine) pos(i ssa.Instruction) string {
@@ -335,7 +340,7 @@ func (e *Engine) feasible(s *State, c *Term) bool {
 	if c == False {
 		return false
 	}
-	r, _ := e.check(append(append([]*Term(nil), s.PC...), c), nil, false)
+	r, _ := e.check(append(sliceFor(s.PC, []*Term{c}), c), nil, false)
 	if r != "sat" && r != "unsat" {
 		e.Incon = append(e.Incon, "feasibility: "+r)
 		return true
@@ -372,7 +377,17 @@ func (e *Engine) oblige(s *State, v *Term, kind, where string) bool {
 		e.Dis++
 		return true
 	}
-	r, vals := e.check(append(append([]*Term(nil), s.PC...), v), s.Extra, true)
+	var vals []*big.Int
+	r := "unsat"
+	if v != True {
+		// decide on the relevant slice first; the full query is only needed for a model
+		r, _ = e.check(append(sliceFor(s.PC, []*Term{v}), v), nil, false)
+	} else {
+		r = "sat"
+	}
+	if r == "sat" {
+		r, vals = e.check(append(append([]*Term(nil), s.PC...), v), s.Extra, true)
+	}
 	switch r {
 	case "unsat":
 		e.Dis++
@@ -417,6 +432,12 @@ func (e *Engine) buildModel(s *State, vals []*big.Int) *ModelOut {
 				bytesTmp[rest[:k]] = map[int]byte{}
 			}
 			bytesTmp[rest[:k]][idx] = byte(v.Uint64())
+		case strings.HasPrefix(tag, "w:"):
+			rest := tag[2:]
+			k := strings.LastIndex(rest, ":")
+			var n int
+			fmt.Sscan(rest[k+1:], &n)
+			m.Bytes[rest[:k]] = fmt.Sprintf("%0*x", 2*n, v)
 		case strings.HasPrefix(tag, "u:"):
 			// u:fn:argindex... handled via order: tag = u:fn|k where args follow as a:...
 			m.Order = append(m.Order, tag+"="+v.Text(16))
@@ -472,27 +493,159 @@ func (e *Engine) buildModel(s *State, vals []*big.Int) *ModelOut {
 
 type abortPath struct{ reason string }
 
+// shared work list of one harness run; several worker engines (each with its own solver
+// processes) take states from it.
+type sharedWork struct {
+	mu      sync.Mutex
+	cond    *sync.Cond
+	work    []*State
+	active  int
+	paths   int
+	stopped string
+	wg      sync.WaitGroup
+	helpers []*Engine
+}
+
+// tokens limits the number of concurrently running workers (each owns two solver processes).
+var tokens chan struct{}
+
 func (e *Engine) Run(fn *ssa.Function, root *State) {
 	root.Frames = []*Frame{{Fn: fn, Block: fn.Blocks[0], Env: map[ssa.Value]Value{}, Visits: map[int]int{}}}
-	work := []*State{root}
-	for len(work) > 0 {
-		s := work[len(work)-1]
-		work = work[:len(work)-1]
-		if e.MaxPaths > 0 && e.Paths >= e.MaxPaths {
-			e.Incon = append(e.Incon, fmt.Sprintf("path budget %d exhausted with %d states pending", e.MaxPaths, len(work)+1))
+	sh := &sharedWork{work: []*State{root}}
+	sh.cond = sync.NewCond(&sh.mu)
+	e.workerLoop(sh, true)
+	sh.wg.Wait()
+	for _, h := range sh.helpers {
+		e.merge(h)
+	}
+	if sh.stopped != "" {
+		e.Incon = append(e.Incon, sh.stopped)
+	}
+}
+
+func (e *Engine) helper() *Engine {
+	h := &Engine{prog: e.prog, pkg: e.pkg, Harness: e.Harness, Reached: map[string]bool{}, fset: e.fset, stubs: e.stubs,
+		FnSeen: map[string]int{}, Stubs: map[string]bool{}, rtPkgFns: e.rtPkgFns, MaxPaths: e.MaxPaths, deadline: e.deadline,
+		params: e.params, newSolver: e.newSolver}
+	return h
+}
+
+func (e *Engine) merge(h *Engine) {
+	e.Paths += h.Paths
+	e.PathsSym += h.PathsSym
+	e.Oblig += h.Oblig
+	e.Dis += h.Dis
+	e.Sat += h.Sat
+	e.Assumes += h.Assumes
+	for _, f := range h.Findings {
+		dup := false
+		for _, g := range e.Findings {
+			if g.Kind == f.Kind && g.Where == f.Where {
+				dup = true
+			}
+		}
+		if !dup {
+			e.Findings = append(e.Findings, f)
+		}
+	}
+	e.Incon = append(e.Incon, h.Incon...)
+	e.Faults = append(e.Faults, h.Faults...)
+	for k := range h.Reached {
+		e.Reached[k] = true
+	}
+	for k, v := range h.FnSeen {
+		e.FnSeen[k] += v
+	}
+	for k := range h.Stubs {
+		e.Stubs[k] = true
+	}
+	for _, s := range h.Samples {
+		if len(e.Samples) < 6 {
+			e.Samples = append(e.Samples, s)
+		}
+	}
+	for _, a := range h.Axioms {
+		e.noteBound(a)
+	}
+	e.SolverStats = append(e.SolverStats, h.SolverStats...)
+}
+
+func (e *Engine) workerLoop(sh *sharedWork, main bool) {
+	defer func() {
+		if e.Solver != nil {
+			e.SolverStats = append(e.SolverStats, e.Solver)
+			e.Solver.Close()
+		}
+	}()
+	for {
+		sh.mu.Lock()
+		for len(sh.work) == 0 && sh.active > 0 && main {
+			sh.cond.Wait()
+		}
+		if len(sh.work) == 0 || sh.stopped != "" {
+			sh.mu.Unlock()
+			return
+		}
+		if e.MaxPaths > 0 && sh.paths >= e.MaxPaths {
+			sh.stopped = fmt.Sprintf("path budget %d exhausted with %d states pending", e.MaxPaths, len(sh.work))
+			sh.mu.Unlock()
 			return
 		}
 		if !e.deadline.IsZero() && time.Now().After(e.deadline) {
-			e.Incon = append(e.Incon, fmt.Sprintf("time budget exhausted with %d states pending", len(work)+1))
+			sh.stopped = fmt.Sprintf("time budget exhausted with %d states pending", len(sh.work))
+			sh.mu.Unlock()
 			return
 		}
-		more := e.runPath(s)
-		work = append(work, more...)
+		s := sh.work[len(sh.work)-1]
+		sh.work = sh.work[:len(sh.work)-1]
+		sh.active++
+		sh.paths++
+		// spawn helpers while there is a backlog and spare capacity
+		for spare := len(sh.work); spare > 0; spare-- {
+			select {
+			case tokens <- struct{}{}:
+				h := e.helper()
+				sh.helpers = append(sh.helpers, h)
+				sh.wg.Add(1)
+				go func() {
+					defer sh.wg.Done()
+					defer func() { <-tokens }()
+					h.workerLoop(sh, false)
+				}()
+				continue
+			default:
+			}
+			break
+		}
+		sh.mu.Unlock()
+		if e.Solver == nil {
+			pf, err := e.newSolver()
+			if err != nil {
+				e.Faults = append(e.Faults, "solver start: "+err.Error())
+				sh.mu.Lock()
+				sh.active--
+				sh.stopped = "solver start failed"
+				sh.cond.Broadcast()
+				sh.mu.Unlock()
+				return
+			}
+			e.Solver = pf
+		}
+		forks := e.runPath(s)
+		sh.mu.Lock()
+		sh.work = append(sh.work, forks...)
+		sh.active--
+		sh.cond.Broadcast()
+		sh.mu.Unlock()
 	}
 }
 
 func (e *Engine) endPath(s *State) {
 	e.Paths++
+	if os.Getenv("VERIF_TRACE") != "" && e.Paths%20 == 0 {
+		fmt.Fprintf(os.Stderr, "[%s] paths=%d obligations=%d queries=%d trace=%v\n", e.Harness, e.Paths, e.Oblig, e.Solver.Queries, s.Trace)
+		_ = 0
+	}
 	if s.Branches > 0 {
 		e.PathsSym++
 	}
@@ -995,21 +1148,37 @@ func strCmpLess(a, b Str) *Term {
 	return Slt(c, BVu(0, 64))
 }
 
-// bytesCompare returns a 64-bit term in {-1,0,1}.
+// bytesCompare returns a 64-bit term in {-1,0,1}; built from boolean lt/gt formulas so that
+// comparisons of the result with 0 simplify to pure boolean structure.
 func bytesCompare(a1, o1, l1 *Term, m1 int, a2, o2, l2 *Term, m2 int) *Term {
+	if l1.IsConst() && l2.IsConst() && l1 == l2 {
+		n := int(l1.Val.Int64())
+		if n == 0 {
+			return BVu(0, 64)
+		}
+		w1, w2 := WordOf(a1, o1, n), WordOf(a2, o2, n)
+		return Ite(Ult(w1, w2), BVi(-1, 64), Ite(Ult(w2, w1), BVu(1, 64), BVu(0, 64)))
+	}
 	m := m1
 	if m2 < m {
 		m = m2
 	}
-	neg, pos, zero := BVi(-1, 64), BVu(1, 64), BVu(0, 64)
-	r := Ite(Ult(l1, l2), neg, Ite(Ult(l2, l1), pos, zero))
-	for i := m - 1; i >= 0; i-- {
+	prefix := True // all earlier positions are in range and equal
+	var lts, gts []*Term
+	for i := 0; i < m; i++ {
 		ii := Idx(i)
 		x, y := Select(a1, Add(o1, ii)), Select(a2, Add(o2, ii))
 		in := And(Ult(ii, l1), Ult(ii, l2))
-		r = Ite(in, Ite(Ult(x, y), neg, Ite(Ult(y, x), pos, r)), r)
+		lts = append(lts, And(prefix, in, Ult(x, y)))
+		gts = append(gts, And(prefix, in, Ult(y, x)))
+		prefix = And(prefix, Implies(in, Eq(x, y)))
+		if prefix == False {
+			break
+		}
 	}
-	return r
+	lts = append(lts, And(prefix, Ult(l1, l2)))
+	gts = append(gts, And(prefix, Ult(l2, l1)))
+	return Ite(Or(lts...), BVi(-1, 64), Ite(Or(gts...), BVu(1, 64), BVu(0, 64)))
 }
 
 func (e *Engine) binop(s *State, x *ssa.BinOp, a, b Value) Value {
